@@ -1,6 +1,6 @@
 (* C09  Bytes the guest transmits reach the host once, in order. *)
 From Coq Require Import ZArith List Bool.
-From Dmd Require Import Model.Bits Model.Fifo Model.Mem Model.Duart Proofs.FifoProofs Proofs.PortProofs Proofs.DuartProofs Proofs.DeviceRefine Gen.GenDuart Proofs.RegMapTie Model.Bus Proofs.BusDuart Gen.GenPort Proofs.PortTie.
+From Dmd Require Import Model.Bits Model.Fifo Model.Mem Model.Duart Proofs.FifoProofs Proofs.PortProofs Proofs.DuartProofs Proofs.DeviceRefine Gen.GenDuart Proofs.RegMapTie Model.Bus Proofs.BusDuart Gen.GenPort Proofs.PortTie Gen.GenCmd Proofs.CmdTie.
 Import ListNotations.
 Open Scope Z_scope.
 
@@ -98,3 +98,11 @@ Theorem C09_transmitter_helpers_are_source_functions :
     enable_tx p = g_enable_tx p /\ disable_tx p = g_disable_tx p /\ loopback p = g_loopback p.
 Proof. intros A p. repeat apply conj; [apply enable_tx_is_source | apply disable_tx_is_source | apply loopback_is_source]. Qed.
 Print Assumptions C09_transmitter_helpers_are_source_functions.
+
+(* the command interpreter is the source's: Gen/GenCmd.v is Duart::handle_command translated statement by statement from
+   /repo/src/duart.rs on every run (per-port interrupt-status table, enable / disable arms, the command match with its
+   resets and break commands), and the model's handle_command equals it for every command byte, channel and state *)
+Theorem C09_command_interpreter_is_source_function :
+  forall cmd pn d, handle_command cmd pn d = g_handle_command cmd pn d.
+Proof. exact handle_command_is_source. Qed.
+Print Assumptions C09_command_interpreter_is_source_function.
